@@ -612,6 +612,12 @@ func (w *World) ApplyReq(e Event) (commit func()) {
 	case "req:weight":
 		el.NextLocking.UpdateWeights = append(el.NextLocking.UpdateWeights, &goattypes.UpdateTokenWeightRequest{Token: common.Address{}, Weight: uint64(e.N)})
 		return func() {}
+	case "req:lock2":
+		el.NextLocking.Locks = append(el.NextLocking.Locks, &goattypes.LockRequest{Validator: w.ValKeys[1].EthAddr(), Token: common.Address{}, Amount: new(big.Int).Mul(big.NewInt(int64(e.N)), big.NewInt(1e18))})
+		return func() {}
+	case "req:unknown-token-lock":
+		el.NextLocking.Locks = append(el.NextLocking.Locks, &goattypes.LockRequest{Validator: w.ValKeys[0].EthAddr(), Token: common.BytesToAddress([]byte{0x77}), Amount: big.NewInt(5)})
+		return func() {}
 	case "req:unknown-validator-lock":
 		el.NextLocking.Locks = append(el.NextLocking.Locks, &goattypes.LockRequest{Validator: common.BytesToAddress([]byte{0xde, 0xad}), Token: common.Address{}, Amount: big.NewInt(5)})
 		return func() {}
